@@ -719,6 +719,21 @@ def _forms() -> list:
             out.append(("inline", (A.Op("x", (I(1),), A.CtxHeader(kind, t)), b)))
             out.append(("with", (A.Label("l"), a, A.With(A.CtxHeader(kind, t), A.Jump("l")))))
             out.append(("with", (A.Label("l"), a, A.With(A.CtxHeader(kind, t), A.Call("l")), b)))
+    # a block whose ONLY statement is a with-block (or an op with inline context) around a flow-ending op, with another block laid
+    # out behind it: the op after a context op does not end the flow of the block, the jump over the next block must stay
+    cnd = A.CondOp(C("$V"), "==", I(1), False)
+    cnd2 = A.CondOp(C("$W"), ">", I(2), False)
+    for ki, kind in enumerate(("actor", "object", "performer")):
+        hdr = A.CtxHeader(kind, I(2) if ki % 2 else C("TARGET"))
+        for term in ("return", "end", "hold"):
+            w = A.With(hdr, A.Ctrl(term))
+            out.append(("with-only-body", (A.If((A.IfBranch(False, (cnd,), (w,)),), (b,)), c)))
+            out.append(("with-only-body", (A.If((A.IfBranch(False, (cnd,), (a,)), A.IfBranch(False, (cnd2,), (w,))), (b,)), c)))
+            out.append(("with-only-body", (A.If((A.IfBranch(True, (cnd,), (w,)), A.IfBranch(False, (cnd2,), (b,))), None), c)))
+            out.append(("with-only-body", (A.Switch(A.SwVar(C("$V")), (A.Case(A.CaseVal(I(1)), (w,)), A.Case(A.CaseVal(I(2)), (b, A.Ctrl("break"))), A.Case(None, (c,)))), A.Op("d"))))
+            out.append(("with-only-body", (A.If((A.IfBranch(False, (cnd,), (a,)),), (w,)), c)))
+            out.append(("with-only-body", (A.While(False, cnd, (w,)), b)))
+            out.append(("with-only-body", (A.Forever((A.If((A.IfBranch(False, (cnd,), (w,)),), (A.Ctrl("break_loop"),)), b)), c)))
     for j in range(12):
         out.append(("msg", (r2.message_switch(j), a)))
     out.append(("msg", (A.MessageSwitch("message_SwitchTalk", I(1), (A.Case(None, (), A.Str("only default")),)), a)))
